@@ -1,7 +1,8 @@
 (* C12 - Equality is symmetric and consistent with ordering.
    Property theorems only; proofs live in Proofs/C12.v.  `veq`, `vneq`, `vlt`, `vgt`
    (Model/ValueEq.v) are the functions compared with rsass's answers on every run.
-   State after the fixes 5445670 (symmetric Number::eq) and 0a747ec (map equality ignores key order). *)
+   State after the fixes 5445670 (symmetric Number::eq), 0a747ec (map equality ignores key order) and
+   14ede20 (two convertible units compare symmetrically). *)
 From Coq Require Import String List ZArith Bool NArith.
 From RV Require Import Base.F64 Model.Units Model.Numeric Model.CssStr Model.ValueEq Proofs.C12.
 Import ListNotations.
@@ -39,14 +40,23 @@ Theorem C12_numeric_eq_sym : forall a b, aligned a b = true -> num_eqb a b = num
 Proof. exact num_eqb_sym_aligned. Qed.
 Print Assumptions C12_numeric_eq_sym.
 
-(* `a == b` = `b == a` for all values (numbers, strings, booleans, null, nested lists, maps with at most one
-   entry) whose numbers have aligned units.  What remains outside:
-   - two DIFFERENT convertible units (`1in == 96px`): each direction converts the other operand with its own
-     rounding, no proof that the two epsilon tests agree;
+(* F31 is fixed (14ede20): Numeric equality of two numbers carrying single known units is symmetric for ALL
+   magnitudes, whether the units convert into each other or not.  Proof: a sweep over the unit table shows that
+   for every pair of known units either no conversion exists in either direction, or exactly one direction has a
+   factor >= 1 (so both orders multiply the same operand by the same factor), or both factors are exactly 1.0
+   (vmin/vmax; x * 1.0 = x is proved over Flocq); then C12_number_eq_sym. *)
+Theorem C12_numeric_eq_sym_units : forall u v x y, In u real_units -> In v real_units ->
+  num_eqb (mkNum x (us_of_unit u)) (mkNum y (us_of_unit v)) = num_eqb (mkNum y (us_of_unit v)) (mkNum x (us_of_unit u)).
+Proof. exact num_eqb_sym_units. Qed.
+Print Assumptions C12_numeric_eq_sym_units.
+
+(* `a == b` = `b == a` for all values (numbers, strings in any spelling, booleans, null, nested lists, maps with at
+   most one entry) whose numbers are unitless or carry equal unit sets or single known units.  What remains outside:
+   - numbers with UNKNOWN units (`1foo`) compared with a different unit, and compound unit sets (`px*px`, `px/s`)
+     that differ: not covered by the table sweep (no counterexample; checked on rsass's answers);
    - maps with two or more entries: the lookup takes the FIRST entry with an equal key and equality of numbers
-     is not transitive, so symmetry needs an argument about key sets that is not done.
-   Both are checked on rsass's answers on every run (clause symmetry, no escape class). *)
-Theorem C12_sym : forall a b, maps_le1 a = true -> maps_le1 b = true -> all_aligned a b -> veq a b = veq b a.
+     is not transitive, so symmetry needs an argument about key sets that is not done (checked on rsass's answers). *)
+Theorem C12_sym : forall a b, maps_le1 a = true -> maps_le1 b = true -> all_sym_units a b -> veq a b = veq b a.
 Proof. exact veq_sym. Qed.
 Print Assumptions C12_sym.
 
@@ -54,16 +64,6 @@ Print Assumptions C12_sym.
 Theorem C12_sym_general : forall a b, maps_le1 a = true -> maps_le1 b = true -> pairs_sym a b -> veq a b = veq b a.
 Proof. exact veq_sym_general. Qed.
 Print Assumptions C12_sym_general.
-
-(* F31: the unrestricted statement is still false for two different convertible units *)
-Definition C12_sym_statement : Prop := forall a b, veq a b = veq b a.
-Theorem C12_refuted_sym_two_units : ~ C12_sym_statement /\
-  veq (VNum turn_254 true) (VNum deg_9144 true) = true /\ veq (VNum deg_9144 true) (VNum turn_254 true) = false.
-Proof.
-  split; [|exact refuted_sym_two_units]. intros H. specialize (H (VNum turn_254 true) (VNum deg_9144 true)).
-  destruct refuted_sym_two_units as [E1 E2]. rewrite E1, E2 in H. clear E1 E2. exact (Bool.diff_true_false H).
-Qed.
-Print Assumptions C12_refuted_sym_two_units.
 
 (* for two numbers that the code can compare (partial_cmp is Some) and that carry the same
    `calculated` flag, exactly one of <, ==, > holds *)
@@ -87,5 +87,7 @@ Example C12_nonvacuous :
   let b := VList [VNum below_one true; VStr (mkStr [97%N] QDouble); VMap [(VStr (mkStr [98%N] QDouble), VNum one true)]] 1 false in
   maps_le1 a = true /\ maps_le1 b = true /\ veq a b = true /\ veq b a = true
   /\ numeric_cmp one below_one = Some (Some Eq) /\ numeric_cmp below_one one = Some (Some Eq)
-  /\ maps_nodup (VMap [(VStr (mkStr [97%N] QNone), VNum one true); (VStr (mkStr [98%N] QNone), VNum one true)]) = true.
-Proof. vm_compute. repeat split; reflexivity. Qed.
+  /\ maps_nodup (VMap [(VStr (mkStr [97%N] QNone), VNum one true); (VStr (mkStr [98%N] QNone), VNum one true)]) = true
+  /\ In (UK "Turn") real_units /\ In (UK "Deg") real_units
+  /\ veq (VNum turn_254 true) (VNum deg_9144 true) = veq (VNum deg_9144 true) (VNum turn_254 true).
+Proof. vm_compute. repeat split; auto 40. Qed.
